@@ -10,6 +10,8 @@ SPEC = {
          "race_thorough": True},
         {"name": "TestEncoderBoundary", "quick": 160, "thorough": 6000, "shards_quick": 4, "shards_thorough": 16, "timeout": 1800,
          "race_thorough": True},
+        {"name": "TestEncoderFileSink", "quick": 160, "thorough": 2000, "shards_quick": 4, "shards_thorough": 16, "timeout": 1800,
+         "race_thorough": True},
         {"name": "TestEngineLevel", "quick": 480, "thorough": 24000, "shards_quick": 4, "shards_thorough": 16, "timeout": 1800,
          "race_thorough": True, "replay_repeat": 50},
         # case counts are fixed inside the tests (vf.Batch): 8 subprocess trials quick, 100 per process thorough
@@ -20,31 +22,49 @@ SPEC = {
     "rule": ("(a) rapid-generated report histories against the real aggregators: 1-8 reporter goroutines x 0-120 reports x 1-20 rounds, "
              "samples drawn from a small pool (duplicates) or fresh; phout: netsample.Acquire + exported setters with arbitrary ints "
              "(0, negative, around 2^32, up to +-9e15 us / the whole int range), tags over letters/space/#/|/unicode without TAB/LF "
-             "(empty allowed), ids on/off, queue 0-4096, buffer at the 4 KiB minimum, written through a recording afero file; "
+             "(empty allowed), ids on/off, queue 0-4096, buffer at the 4 KiB minimum, written through a recording afero file; in 3 of 5 "
+             "histories discarded shoots are reported among the guns' samples the way an instance behind its schedule does under "
+             "discard_overflow (Report(netsample.DiscardedShootSample())): any reporter now and then, or some reporters nothing else; "
              "jsonlines / NewEncoderAggregator+JSON encoder / NewEncoderAggregator+a SampleEncodeCloser: struct, map, string, int, list "
              "samples with strings holding newlines, quotes, control characters, unicode; queue 1-64, flush interval 0/1 ms-1 s, "
-             "recording DataSink; Run started up to 2 ms after the reporters, context cancelled 0-3 ms after the last Report returned. "
+             "recording DataSink, or (1 of 4) the real file data sink (datasink.NewFile = `sink: {type: file}`) on a recording file system, "
+             "half of those with 1-4 Write calls that take 0.5 / 2 ms; Run started up to 2 ms after the reporters, context cancelled 0-3 ms after the last Report returned. "
              "(a') buffer-boundary sweep of the same three encoder aggregators: one sample of a fixed encoded line length (32-4096 bytes "
              "dividing 4 KiB, 2047-8193 around the buffer sizes, arbitrary 32-900; string / map / list) is reported n times for EVERY n of "
              "a window one buffer period + 2 wide (period = 4 KiB or the configured buffer_size / line length, window at the 0th-6th "
              "period; or 4 counts around the one that fills the 512 KiB default buffer with 4-32 KiB lines), queue = n (no overflow), "
              "1-3 reporters, buffer_size default/1/4096/5000/6000/8192/12288, flush interval 0 / 1 h (only the final flush writes) / 1 s / 1 ms. "
+             "(a'') the three encoder aggregators through the real file data sink on a recording file system that is slow for a moment, every "
+             "sample unique (reporter/sequence number, line length varying from sample to sample), 1-4 reporters reporting in bursts: "
+             "'slow moments' (2 of 3) - lines of 30-1100 bytes, 6-24 bursts of 1-60 reports 0.3-2 ms apart, flush interval 1-5 ms, buffer "
+             "default/4 KiB/6000/16 KiB, 1-8 consecutive Write calls (starting at the 0th-4th) take 1-6 ms each, queue = reports (no drop "
+             "possible) or 8/64/512; 'big bursts' (1 of 3) - lines of 8-64 KiB, 2-4 bursts of 1.1-2 buffers (512 KiB default, or 64 KiB) "
+             "1-6 ms apart, flush interval 2 ms-1 s, Write calls of 0/1/3/5 ms (the first one or two, or all), queue = reports or 16. "
              "(b) real engine + real phout + recording gun reporting 1-3 uniquely tagged samples per shot, 1-4 instances at once, 1-120 tokens: "
              "normal end (tokens or ammo exhausted, any queue size), provider fault at item i, caller cancel after the j-th completed report; "
              "in half of the normal / cancel cases the startup schedule goes on after the `once` part (const 1/s for 30 s, or 200-2000/s for "
              "2-20 ms), and in half of those the ammo (0-24 items) runs out while instances are still being started and other instances "
              "are inside shots of up to 2.5 ms whose samples are reported after the first 'out of ammo'; each case twice. (c) cmd/vpandora subprocess with the `verif` gun (side-file counters before / after every Report), real "
              "phout file, const 1-20 krps, 2-4 instances; SIGINT / SIGTERM 0-1.6 s after 100-3000 reports completed (both sides of phout's "
-             "1 s flush tick), or no signal and a 150-1200 ms run. Non-trivial = (a) >= 2 reporters or queue < reports, (a') every sweep, (b) >= 2 reports "
+             "1 s flush tick), or no signal and a 150-1200 ms run. Non-trivial = (a) >= 2 reporters or queue < reports, (a') every sweep, (a'') every case, (b) >= 2 reports "
              "due before the end instant and (>= 2 instances or queue < reports), (c) c0 >= 100; distinct = hash of the case."),
     "floors": {
         "TestPhoutHistory/reporters_ge_2": 0.5, "TestPhoutHistory/queue_lt_reports": 0.4, "TestPhoutHistory/ids_on": 0.22,
         "TestPhoutHistory/ids_off": 0.3, "TestPhoutHistory/negative_field": 0.5, "TestPhoutHistory/field_beyond_2^32": 0.5,
         "TestPhoutHistory/tag_special_chars": 0.5, "TestPhoutHistory/several_writes": 0.1, "TestPhoutHistory/duplicate_samples": 0.3,
         "TestPhoutHistory/report_before_run": 0.2,
+        "TestPhoutHistory/discarded_among_shots": 0.25, "TestPhoutHistory/discarded_among_shots_reporters_ge_2": 0.22,
+        "TestPhoutHistory/discarded_among_shots_ids_on": 0.1, "TestPhoutHistory/discarded_ge_20_among_shots_ge_20": 0.05,
         "TestEncoderHistory/drops": 0.3, "TestEncoderHistory/no_drops": 0.15, "TestEncoderHistory/queue_1": 0.2,
         "TestEncoderHistory/kind_jsonlines": 0.3, "TestEncoderHistory/kind_encoder": 0.1, "TestEncoderHistory/kind_closer": 0.1,
         "TestEncoderHistory/reporters_ge_2": 0.5, "TestEncoderHistory/several_writes": 0.1, "TestEncoderHistory/escaped_newline": 0.2,
+        "TestEncoderHistory/sink_file": 0.15, "TestEncoderHistory/sink_file_slow_write": 0.03,
+        "TestEncoderFileSink/shape_slow_moments": 0.45, "TestEncoderFileSink/shape_big_bursts": 0.17,
+        "TestEncoderFileSink/slow_write_reached": 0.55, "TestEncoderFileSink/write_after_slow_write": 0.45,
+        "TestEncoderFileSink/write_slower_than_flush_interval": 0.25, "TestEncoderFileSink/chunk_larger_than_buffer": 0.2,
+        "TestEncoderFileSink/chunk_gt_512k": 0.06, "TestEncoderFileSink/chunk_larger_than_buffer_and_slow_write": 0.12,
+        "TestEncoderFileSink/kind_jsonlines": 0.4, "TestEncoderFileSink/drops": 0.08, "TestEncoderFileSink/no_drops": 0.5,
+        "TestEncoderFileSink/reporters_ge_2": 0.4,
         "TestEncoderBoundary/crossed_4k_multiple": 0.5, "TestEncoderBoundary/output_exact_4k_multiple": 0.25,
         "TestEncoderBoundary/final_flush_only": 0.33, "TestEncoderBoundary/flush_never": 0.2, "TestEncoderBoundary/kind_jsonlines": 0.3,
         "TestEncoderBoundary/kind_encoder": 0.08, "TestEncoderBoundary/kind_closer": 0.1, "TestEncoderBoundary/buffer_default": 0.2,
@@ -63,10 +83,12 @@ SPEC = {
                  "before the end-of-run / cancel / signal instant). After Aggregator.Run returned (or the process exited) the destination "
                  "bytes are parsed by the harness's own reader: phout lines must match `<sec>.<ms> TAB tag[#id] (TAB int){10}` with the "
                  "ten fields in the Yandex.Tank phout column order, timestamps inside the measured acquisition window, and the multiset of "
-                 "lines must equal the multiset of reports; encoder aggregators: each line one JSON value equal (after decoding, numbers "
+                 "lines must equal the multiset of reports (a discarded shoot = tag `discarded`, id 0, net code 777, the other fields 0); "
+                 "encoder aggregators: each line one JSON value equal (after decoding, numbers "
                  "kept verbatim) to a reported sample as encoded by encoding/json, lines + SomeSamplesDropped.Dropped (errors.As on the "
                  "Run error) = reports, error nil iff no drop; the destination opened once, closed exactly once, no write after close, "
-                 "last line complete. Engine: completed-before-end <= lines <= started. Subprocess: reports completed before the signal "
+                 "last line complete; with the real file sink also: the file holds exactly the bytes handed to its Write calls (copied when "
+                 "each call began). Engine: completed-before-end <= lines <= started. Subprocess: reports completed before the signal "
                  "<= lines <= reports started, per instance the lines are exactly reports 1..m (no gap, no duplicate)."),
         "note": ("Signal instants are sampled (100 + 8 trials), not exhausted; goroutine interleavings are those the Go scheduler produced "
                  "(-race in thorough). In engine error/cancel cases phout's queue is sized above the report count because a Report made "
@@ -79,6 +101,10 @@ SPEC = {
         "interval_event has no setter and is expected to be 0",
         "JSON equality is judged against encoding/json's encoding of the same Go value (struct/map/string/int/list, no floats)",
         "the side-file counters of the verif gun (O_APPEND, one byte per event) bracket the number of completed reports",
+        "a discarded-shoot sample carries nothing but what docs/eng/best_practices/discard-overflow.md names - the tag `discarded` and "
+        "net error 777; id and the other nine fields are 0 (the instance reports it untouched)",
+        "a slow file system is modelled by a Write that sleeps before it takes the bytes over; the sleeps are part of the environment, "
+        "no assertion depends on a duration",
         "timestamps are compared with the wall clock of the same process; the check is skipped for a case during which the wall clock stepped by > 1 ms",
     ],
 }
